@@ -46,7 +46,7 @@ def records_by_time(D, name, axis):
     return {ax[3][i]: ds[3][i * per:(i + 1) * per] for i in range(min(nrec, len(ax[3])))}
 
 
-def compare(D0, D1, what):
+def compare(D0, D1, what, initial_record_exception=False):
     # final phase space
     p0 = records_by_time(D0, "/PhaseSpace/data", "/PhaseSpace/axis0")
     p1 = records_by_time(D1, "/PhaseSpace/data", "/PhaseSpace/axis0")
@@ -58,8 +58,8 @@ def compare(D0, D1, what):
         k = next(i for i in range(len(p0[last0])) if p0[last0][i] != p1[last1][i])
         return "%s: final phase space differs bit-wise (cell %d: %s vs %s)" % (what, k, p0[last0][k], p1[last1][k])
     for t in set(p0) & set(p1):
-        if t == "00000000":
-            continue      # at t=0 one run may hold the initial grid (before the first renormalisation)
+        if t == "00000000" and initial_record_exception:
+            continue      # known finding initial-record (witnessed separately by initial_record_witness)
         if p0[t] != p1[t]:
             return "%s: phase-space records at t=%s differ" % (what, t)
     k0, k1 = D0["dsets"].get("/RFKicks/data"), D1["dsets"].get("/RFKicks/data")
@@ -97,10 +97,28 @@ def explore(chk, exe, h5, nconf, nvar, tag):
             if err:
                 fails.append((cfg, v, err))
                 continue
-            f = compare(D0, D1, "variant %r vs %r" % (v, base))
+            # known finding initial-record: ONLY with RenormalizeCharge > 0 and only between a run that stores the start
+            # grid before the loop (SavePhaseSpace = 0) and one that stores it inside the loop (SavePhaseSpace > 0)
+            exc = cfg.get("renorm", 0) > 0 and ((v.get("h5save", base["h5save"]) == 0) != (base["h5save"] == 0))
+            f = compare(D0, D1, "variant %r vs %r" % (v, base), initial_record_exception=exc)
             if f:
                 fails.append((cfg, v, f))
     return cfgs, evals, fails
+
+
+def initial_record_witness(exe, h5):
+    """known finding initial-record: RenormalizeCharge = 1, start 1.3 natural sizes wide; the phase space stored under
+    t = 0 with SavePhaseSpace = 0 (before the loop) and with SavePhaseSpace = 1 (inside the loop, after normalize())"""
+    cfg = dict(n=32, N=40, T=0.5, outstep=5, h5save=0, cur=[0.003], imp="pp", renorm=1, shx=0, shy=0, pad=2, it=4, dt=4, zoom=1.3)
+    D0, e0 = run_variant(exe, h5, cfg, dict(outstep=5, h5save=0), "witness0")
+    D1, e1 = run_variant(exe, h5, cfg, dict(outstep=5, h5save=1), "witness1")
+    if e0 or e1:
+        return cfg, None, "witness run failed: %s" % (e0 or e1)
+    p0 = records_by_time(D0, "/PhaseSpace/data", "/PhaseSpace/axis0")
+    p1 = records_by_time(D1, "/PhaseSpace/data", "/PhaseSpace/axis0")
+    differs = p0.get("00000000") != p1.get("00000000")
+    other = compare(D0, D1, "initial-record witness", initial_record_exception=True)
+    return cfg, differs, other
 
 
 def replay_text(cfg, var, what):
@@ -125,7 +143,16 @@ def run(chk):
     chk.assumptions += [
         "determinism of the numerics (FFTW with fixed wisdom, no RF noise) is observed by the bit-wise oracle, not proved; the theorem is non-interference on the generated main-loop skeleton over uninterpreted physics",
         "tracking noise (std::random_device) only reaches /Particles, which is excluded from the comparison",
+        "the full statement for stored phase spaces is false of the code (Lean: common_phase_spaces_full_false; known finding initial-record): the t=0 record is excepted only between SavePhaseSpace=0 and SavePhaseSpace>0 runs with RenormalizeCharge>0",
     ]
+    wcfg, wdiff, wother = initial_record_witness(exe, h5)
+    if wdiff:
+        chk.violation("C12: initial-record witness", replay_text(wcfg, dict(h5save=1), "known finding initial-record: the "
+                      "phase space stored under t=0 differs between SavePhaseSpace=0 and SavePhaseSpace=1"), tag="known",
+                      key="initial-record")
+    if wother:
+        fails.append((wcfg, dict(h5save=1), wother))
+    chk.cov["initial_record_witness"] = {"t0_records_differ": bool(wdiff)}
     for cfg, v, f in fails[:1]:
         chk.violation("C12 violated: " + f, replay_text(cfg, v, f), tag="oracle")
     if not ok and not fails:
